@@ -1334,6 +1334,8 @@ class TmUnit:
                 callees.append(ck)
         walk_block(self.prepared[key][0], fe)
         for ck in callees:
+            if ck == (None, "black_box") and self.jf.black_box_ok:
+                continue
             if ck in self.unprepared:
                 raise Unsupported(f"depends on {ck[1]}, which is not translated")
         elim = self.prepared[key][1].get("eliminated")
